@@ -9,6 +9,7 @@ import (
 	"flag"
 	"fmt"
 	"os"
+	"strconv"
 	"time"
 
 	"verif/sim/kernel"
@@ -30,6 +31,42 @@ func runOne(world, prop, variant string, verifSeed uint64, idx int, src map[stri
 	}
 	run := kernel.NewRun(t, res, trace)
 	start := time.Now()
+	// A history whose library call never returns (a changed library may spin:
+	// a signing loop that cannot succeed, a retry without a limit) must not
+	// hang the check: the world runs on a goroutine of its own and is given
+	// hangLimit of wall-clock time.  A history takes milliseconds to a few
+	// seconds; on the unchanged tree the limit is never reached.
+	finished := make(chan struct{})
+	go func() {
+		defer close(finished)
+		runWorld(run, world, prop, idx)
+	}()
+	select {
+	case <-finished:
+	case <-time.After(hangLimit):
+		run.Violate(prop, "call-does-not-return", world, res.Ops, "a library call made at step %d of this history did not return within %v (the steps before it are in the trace); the process is abandoned", res.Ops, hangLimit)
+		run.Finish()
+		res.WallUS = time.Since(start).Microseconds()
+		res.Tape = t.Record()
+		res.Cfg["abandoned"] = true
+		return res
+	}
+	run.Finish()
+	res.WallUS = time.Since(start).Microseconds()
+	res.Tape = t.Record()
+	return res
+}
+
+// hangLimit is the wall-clock budget of one history (VERIF_HANG_S overrides
+// it, for testing the watchdog itself).
+var hangLimit = func() time.Duration {
+	if n, err := strconv.Atoi(os.Getenv("VERIF_HANG_S")); err == nil && n > 0 {
+		return time.Duration(n) * time.Second
+	}
+	return 180 * time.Second
+}()
+
+func runWorld(run *kernel.Run, world, prop string, idx int) {
 	func() {
 		defer func() {
 			if e := recover(); e != nil {
@@ -52,10 +89,6 @@ func runOne(world, prop, variant string, verifSeed uint64, idx int, src map[stri
 			os.Exit(2)
 		}
 	}()
-	run.Finish()
-	res.WallUS = time.Since(start).Microseconds()
-	res.Tape = t.Record()
-	return res
 }
 
 func main() {
@@ -98,11 +131,15 @@ func main() {
 		res := runOne(rf.World, rf.Prop, *variant, rf.VerifSeed, rf.Idx, rf.Tape, true)
 		res.JobFrom = rf.Idx - rf.Prefix
 		_ = enc.Encode(res)
+		if res.Cfg["abandoned"] == true {
+			out.Flush()
+			os.Exit(3)
+		}
 		return
 	}
 	for i := *from; i < *from+*n; i++ {
 		res := runOne(*world, *prop, *variant, *seed, i, nil, *trace)
-		if len(res.Violations) > 0 && !*trace {
+		if len(res.Violations) > 0 && !*trace && res.Cfg["abandoned"] != true {
 			// re-execute the recorded tape with tracing on (pure function of the tape)
 			res2 := runOne(*world, *prop, *variant, *seed, i, res.Tape, true)
 			res2.Cfg["replayed_for_trace"] = true
@@ -124,5 +161,10 @@ func main() {
 		}
 		res.JobFrom = *from
 		_ = enc.Encode(res)
+		if res.Cfg["abandoned"] == true {
+			// a goroutine of this process is still inside the library
+			out.Flush()
+			os.Exit(3)
+		}
 	}
 }
